@@ -8,6 +8,7 @@ import (
 	"reflect"
 	"regexp"
 	"runtime/debug"
+	"sort"
 	"strconv"
 	"strings"
 	"time"
@@ -374,6 +375,9 @@ func (e *Env) opts(o Opts) []z.TestOption {
 	if o.MsgFunc == NoopMsgFunc {
 		// a MessageFunc that decides, this time, to leave the message to the formatters below it
 		out = append(out, z.MessageFunc(func(is *z.ZogIssue, ctx z.Ctx) {}))
+	} else if o.MsgFunc == DescribeMsgFunc {
+		// a MessageFunc that writes the message from what the issue says (code, type, offending value, params)
+		out = append(out, z.MessageFunc(func(is *z.ZogIssue, ctx z.Ctx) { is.SetMessage("seen:" + DescribeIssue(is)) }))
 	} else if o.MsgFunc != "" {
 		marker := o.MsgFunc
 		out = append(out, z.MessageFunc(func(is *z.ZogIssue, ctx z.Ctx) { is.SetMessage(marker) }))
@@ -1228,6 +1232,39 @@ func (e *Env) execOpts(x Exec) []z.ExecOption {
 
 // NoopMsgFunc as Opts.MsgFunc: a MessageFunc that sets no message (the formatters below it decide).
 const NoopMsgFunc = "@noop"
+
+// DescribeMsgFunc as Opts.MsgFunc: a MessageFunc that renders the issue it is given (see DescribeIssue).
+const DescribeMsgFunc = "@describe"
+
+// DescribeIssue renders everything an issue says except its message and path: code, type, the offending value
+// (pointers followed), the params and whether an error is attached.
+func DescribeIssue(is *z.ZogIssue) string {
+	val := "<none>"
+	if rv := reflect.ValueOf(is.Value); rv.IsValid() {
+		for rv.Kind() == reflect.Pointer && !rv.IsNil() {
+			rv = rv.Elem()
+		}
+		val = rv.Type().String() + ":" + CanonJSON(rv)
+	}
+	keys := make([]string, 0, len(is.Params))
+	for k := range is.Params {
+		keys = append(keys, k)
+	}
+	sort.Strings(keys)
+	var ps []string
+	for _, k := range keys {
+		ps = append(ps, fmt.Sprintf("%s=%v", k, addrFree(is.Params[k])))
+	}
+	return fmt.Sprintf("code=%s type=%s value=%s params=%v err=%v", is.Code, is.Dtype, val, ps, is.Err != nil)
+}
+
+func addrFree(v any) string {
+	rv := reflect.ValueOf(v)
+	if rv.IsValid() && (rv.Kind() == reflect.Pointer || rv.Kind() == reflect.Slice || rv.Kind() == reflect.Map) {
+		return CanonJSON(rv)
+	}
+	return fmt.Sprintf("%v", v)
+}
 
 // TemplateFormatter as Exec.Formatter installs the library's own default formatter over a message catalogue whose
 // templates use several placeholders each (the test's parameter and the keys of z.Params given by the generators).
